@@ -72,6 +72,205 @@ Definition dPc : dec pc := fun l =>
   end.
 Definition ePc (c : pc) : list Z := pc_rule c :: eLoc (pc_core c) ++ [pc_first c; pc_last c].
 
+(* ---------- get_ruleset / Ruleset / create_rules: rule objects are shared BY REFERENCE ----------
+   antismash/detection/hmm_detection/__init__.py:get_ruleset keeps a module-level cache of the
+   rulesets it has handed out; Ruleset.__post_init__ applies the distance multipliers IN PLACE to
+   the DetectionRule objects it is given and copy_with_replacements passes the same objects on.
+   So the model has an object store: a rule object is an address, [h_get] reads it, [h_set]
+   mutates it, [h_new] allocates.  Names, categories, strictness levels are numbered. *)
+Record rule := mkRule { r_name : Z; r_cat : Z; r_cutoff : Z; r_nb : Z }.
+Definition ratio := (Z * Z)%type.     (* a float multiplier as numerator / denominator *)
+Record mults := mkMults { m_cutoff : ratio; m_nb : ratio }.
+Definition unit_mults : mults := mkMults (1, 1) (1, 1).        (* Multipliers() *)
+(* int(distance * multiplier): truncation towards zero *)
+Definition scale (d : Z) (m : ratio) : Z := Z.quot (d * fst m) (snd m).
+Definition scale_rule (m : mults) (r : rule) : rule :=
+  mkRule (r_name r) (r_cat r) (scale (r_cutoff r) (m_cutoff m)) (scale (r_nb r) (m_nb m)).
+(* Multipliers.__post_init__: ValueError unless both are positive *)
+Definition mults_valid (m : mults) : bool :=
+  (0 <? fst (m_cutoff m) * snd (m_cutoff m)) && (0 <? fst (m_nb m) * snd (m_nb m)).
+
+Record heap := mkHeap { h_next : nat; h_get : nat -> rule }.
+Definition h_set (h : heap) (i : nat) (r : rule) : heap :=
+  mkHeap (h_next h) (fun j => if Nat.eqb j i then r else h_get h j).
+Definition h_new (h : heap) (r : rule) : heap * nat :=
+  (mkHeap (S (h_next h)) (fun j => if Nat.eqb j (h_next h) then r else h_get h j), h_next h).
+Definition deref (h : heap) (refs : list nat) : list rule := map (h_get h) refs.
+
+Fixpoint mem (x : Z) (l : list Z) : bool := match l with [] => false | y :: r => (x =? y) || mem x r end.
+Fixpoint nodupb (l : list Z) : bool := match l with [] => true | x :: r => negb (mem x r) && nodupb r end.
+
+(* create_rules + Parser.__init__: every rule of the rule files becomes a NEW object; the parser
+   scales its cutoff and neighbourhood once (rules of earlier files are carried along unscaled);
+   a second rule of the same name is a ValueError.  [base]: the rules of the files, in file order,
+   with the distances as written (CUTOFF/NEIGHBOURHOOD in kb * 1000) *)
+Fixpoint parse_rules (m : mults) (base : list rule) (seen : list Z) (h : heap) : res (heap * list nat) :=
+  match base with
+  | [] => Ok (h, [])
+  | b :: rest =>
+    if mem (r_name b) seen then Err E_Value
+    else let (h1, i) := h_new h (scale_rule m b) in
+         match parse_rules m rest (r_name b :: seen) h1 with
+         | Ok (h2, refs) => Ok (h2, i :: refs)
+         | Err k => Err k
+         end
+  end.
+
+(* Ruleset.__post_init__: rule names must be unique (ValueError); then
+   for rule in self._rules_by_name.values(): rule.cutoff = int(rule.cutoff * multipliers.cutoff) ...
+   - an update of the objects themselves.  (The checks on profiles and equivalence groups do not
+   depend on the rules and are not modelled.) *)
+Definition post_init (m : mults) (refs : list nat) (h : heap) : res heap :=
+  if nodupb (map r_name (deref h refs))
+  then Ok (fold_left (fun h' i => h_set h' i (scale_rule m (h_get h' i))) refs h)
+  else Err E_Value.
+
+Record ruleset := mkRs { rs_rules : list nat; rs_mults : mults }.
+Definition ruleset_init (refs : list nat) (m : mults) (h : heap) : res (heap * ruleset) :=
+  match post_init m refs h with Ok h' => Ok (h', mkRs refs m) | Err k => Err k end.
+(* Ruleset.from_files: create_rules(..., multipliers) and then cls(..., multipliers=multipliers) *)
+Definition from_files (base : list rule) (m : mults) (h : heap) : res (heap * ruleset) :=
+  match parse_rules m base [] h with
+  | Ok (h1, refs) => ruleset_init refs m h1
+  | Err k => Err k
+  end.
+(* dataclasses.replace(self, _rules=..., multipliers=...): a new Ruleset over the SAME rule objects *)
+Definition copy_with_replacements (_ : ruleset) (refs : list nat) (m : mults) (h : heap) : res (heap * ruleset) :=
+  ruleset_init refs m h.
+
+(* the options get_ruleset reads: strictness, limit_to_rules / limit_to_categories (as the tuples
+   of the sets built from them), taxon == "fungi", the two fungal multipliers *)
+Record request := mkReq { q_strict : Z; q_names : list Z; q_cats : list Z; q_fungi : bool; q_mults : mults }.
+Definition effective (q : request) : mults := if q_fungi q then q_mults q else unit_mults.
+Record key := mkKey { k_strict : Z; k_names : list Z; k_cats : list Z; k_mults : mults }.
+Definition key_of (q : request) : key := mkKey (q_strict q) (q_names q) (q_cats q) (effective q).
+Definition ratio_eqb (a b : ratio) : bool := (fst a =? fst b) && (snd a =? snd b).
+Definition mults_eqb (a b : mults) : bool := ratio_eqb (m_cutoff a) (m_cutoff b) && ratio_eqb (m_nb a) (m_nb b).
+Definition key_eqb (a b : key) : bool :=
+  (k_strict a =? k_strict b) && list_eqb Z.eqb (k_names a) (k_names b) && list_eqb Z.eqb (k_cats a) (k_cats b)
+  && mults_eqb (k_mults a) (k_mults b).
+
+(* _get_rule_files_for_strictness: the files of the levels up to and including the requested one *)
+Definition rule_files (files : list (list rule)) (s : Z) : list rule := concat (firstn (S (Z.to_nat s)) files).
+
+Record state := mkState { st_heap : heap; st_cache : list (key * ruleset) }.     (* _RULESETS *)
+Definition init_state : state := mkState (mkHeap 0 (fun _ => mkRule 0 0 0 0)) [].
+Fixpoint cache_get (k : key) (c : list (key * ruleset)) : option ruleset :=
+  match c with [] => None | (k', v) :: r => if key_eqb k k' then Some v else cache_get k r end.
+
+Definition get_ruleset (files : list (list rule)) (st : state) (q : request) : res (state * ruleset) :=
+  let m := effective q in
+  if negb (mults_valid m) then Err E_Value else
+  let k := key_of q in
+  match cache_get k (st_cache st) with
+  | Some rs => Ok (st, rs)
+  | None =>
+    match from_files (rule_files files (q_strict q)) unit_mults (st_heap st) with
+    | Err e => Err e
+    | Ok (h1, rs0) =>
+      let by_name := match q_names q with
+                     | [] => rs_rules rs0
+                     | _ => filter (fun i => mem (r_name (h_get h1 i)) (q_names q)) (rs_rules rs0) end in
+      let by_cat := match q_cats q with
+                    | [] => by_name
+                    | _ => filter (fun i => mem (r_cat (h_get h1 i)) (q_cats q)) by_name end in
+      match copy_with_replacements rs0 by_cat m h1 with
+      | Err e => Err e
+      | Ok (h2, rs) => Ok (mkState h2 ((k, rs) :: st_cache st), rs)
+      end
+    end
+  end.
+
+(* a history of calls in one process; a call that raises leaves the cache as it was *)
+Fixpoint run_requests (files : list (list rule)) (st : state) (qs : list request) : state * list (res ruleset) :=
+  match qs with
+  | [] => (st, [])
+  | q :: rest =>
+    match get_ruleset files st q with
+    | Err e => let (st2, out) := run_requests files st rest in (st2, Err e :: out)
+    | Ok (st1, rs) => let (st2, out) := run_requests files st1 rest in (st2, Ok rs :: out)
+    end
+  end.
+
+(* specification: what a request must give, whatever was requested before or after *)
+Definition select (names cats : list Z) (base : list rule) : list rule :=
+  let l1 := match names with [] => base | _ => filter (fun r => mem (r_name r) names) base end in
+  match cats with [] => l1 | _ => filter (fun r => mem (r_cat r) cats) l1 end.
+Definition selected (names cats : list Z) (r : rule) : bool :=
+  match names with [] => true | _ => mem (r_name r) names end && match cats with [] => true | _ => mem (r_cat r) cats end.
+Definition expected_rules (files : list (list rule)) (q : request) : list rule :=
+  map (scale_rule (effective q)) (select (q_names q) (q_cats q) (rule_files files (q_strict q))).
+
+(* observation: after the whole history, every ruleset handed out so far, read NOW: which object
+   it is (numbered by creation, = position in the cache) and the rules it holds *)
+Fixpoint created_before (k : key) (c : list (key * ruleset)) : option Z :=
+  match c with [] => None | (k', _) :: r => if key_eqb k k' then Some (zlen r) else created_before k r end.
+Definition dRule : dec rule := fun l =>
+  match l with n :: c :: d :: b :: r => Some (mkRule n c d b, r) | _ => None end.
+Definition eRule (r : rule) : list Z := [r_name r; r_cat r; r_cutoff r; r_nb r].
+Definition dRatio : dec ratio := dPair dZ dZ.
+Definition dMults : dec mults := fun l =>
+  match dPair dRatio dRatio l with Some ((a, b), r) => Some (mkMults a b, r) | None => None end.
+Definition dReq : dec request := fun l =>
+  match dPair (dPair dZ (dList dZ)) (dPair (dList dZ) (dPair dBool dMults)) l with
+  | Some ((s, ns, (cs, (f, m))), r) => Some (mkReq s ns cs f m, r)
+  | None => None
+  end.
+Definition observe (files : list (list rule)) (qs : list request) : list Z :=
+  let (st, outs) := run_requests files init_state qs in
+  eList (fun qo : request * res ruleset =>
+           match snd qo with
+           | Ok rs => 0 :: match created_before (key_of (fst qo)) (st_cache st) with Some n => n | None => -1 end
+                        :: eList eRule (deref (st_heap st) (rs_rules rs))
+           | Err e => [1; e]
+           end) (combine qs outs).
+
+(* the public constructors used directly (correspondence of from_files / copy_with_replacements,
+   including the behaviour recorded as finding C07-K2): a sequence of
+     Ruleset.from_files(files of a strictness, multipliers=m)
+     made[j].copy_with_replacements(rules=[those named], multipliers=m)   (or without multipliers=) *)
+Inductive apiop :=
+| OpFromFiles (s : Z) (m : mults)
+| OpCopy (j : Z) (names : list Z) (keep : bool) (m : mults).
+
+Fixpoint run_api (files : list (list rule)) (h : heap) (made : list (res ruleset)) (ops : list apiop)
+  : heap * list (res ruleset) :=
+  match ops with
+  | [] => (h, made)
+  | OpFromFiles s m :: rest =>
+    match from_files (rule_files files s) m h with
+    | Ok (h1, rs) => run_api files h1 (made ++ [Ok rs]) rest
+    | Err e => run_api files h (made ++ [Err e]) rest
+    end
+  | OpCopy j names keep m :: rest =>
+    match nth_error made (Z.to_nat j) with
+    | Some (Ok rs) =>
+      let refs := match names with [] => rs_rules rs
+                  | _ => filter (fun i => mem (r_name (h_get h i)) names) (rs_rules rs) end in
+      match copy_with_replacements rs refs (if keep then rs_mults rs else m) h with
+      | Ok (h1, rs') => run_api files h1 (made ++ [Ok rs']) rest
+      | Err e => run_api files h (made ++ [Err e]) rest
+      end
+    | _ => run_api files h (made ++ [Err E_Index]) rest
+    end
+  end.
+
+Definition dApiOp : dec apiop := fun l =>
+  match l with
+  | 0 :: r => match dPair dZ dMults r with Some ((s, m), r') => Some (OpFromFiles s m, r') | None => None end
+  | 1 :: r => match dPair (dPair dZ (dList dZ)) (dPair dBool dMults) r with
+              | Some ((j, ns, (k, m)), r') => Some (OpCopy j ns k m, r') | None => None end
+  | _ => None
+  end.
+Definition eMults (m : mults) : list Z := [fst (m_cutoff m); snd (m_cutoff m); fst (m_nb m); snd (m_nb m)].
+Definition observe_api (files : list (list rule)) (ops : list apiop) : list Z :=
+  let (h, made) := run_api files (st_heap init_state) [] ops in
+  eList (fun o : res ruleset =>
+           match o with
+           | Ok rs => 0 :: eMults (rs_mults rs) ++ eList eRule (deref h (rs_rules rs))
+           | Err e => [1; e]
+           end) made.
+
 Definition run_C07 (fn : Z) (l : list Z) : list Z :=
   match fn with
   | 1 => match dPair (dPair dZ dZ) (dList dLoc) l with
@@ -79,6 +278,12 @@ Definition run_C07 (fn : Z) (l : list Z) : list Z :=
          | _ => bad_input end
   | 2 => match dPair (dList (dPair dZ (dList dZ))) (dList dPc) l with
          | Some ((sup, cs), []) => eList ePc (remove_redundant sup cs)
+         | _ => bad_input end
+  | 3 => match dPair (dList (dList dRule)) (dList dReq) l with
+         | Some ((files, qs), []) => observe files qs
+         | _ => bad_input end
+  | 4 => match dPair (dList (dList dRule)) (dList dApiOp) l with
+         | Some ((files, ops), []) => observe_api files ops
          | _ => bad_input end
   | _ => bad_input
   end.
